@@ -964,6 +964,18 @@ impl<'a> Norm<'a> {
         }
     }
     fn split_slot(&mut self, slot: &mut Expr, out: &mut Vec<Stmt>) {
+        // `&[a, b, c]` (pseudo-callee `[]`): the array temporary gets a name, the slot borrows it
+        if let Expr::Reference(r) = slot {
+            if r.mutability.is_none() && matches!(&*r.expr, Expr::Array(_)) && self.spec.letsplit.iter().any(|x| x == "[]") {
+                self.split_no += 1;
+                let id = Ident::new(&format!("__t{}", self.split_no), Span::call_site());
+                let val = (*r.expr).clone();
+                out.push(parse_quote!(let #id = #val;));
+                r.expr = Box::new(parse_quote!(#id));
+                self.bump("R-LETSPLIT");
+                return;
+            }
+        }
         self.split_spine(slot, out);
         let callee = match &*slot {
             Expr::MethodCall(r) => Some(r.method.to_string()),
